@@ -182,15 +182,18 @@ impl UserBoundsList {
             .iter()
             .flat_map(|bof| match bof {
                 // XXX how to do it using only iterators, no collect?
-                BoundOrFiller::Bound(b) => anyhow::Ok(
-                    b.complement(num_fields)?
-                        .into_iter()
-                        .map(BoundOrFiller::Bound)
-                        .collect(),
-                ),
-                BoundOrFiller::Filler(f) => Ok(vec![BoundOrFiller::Filler(f.clone())]),
+                BoundOrFiller::Bound(b) => match b.complement(num_fields) {
+                    Ok(v) => v.into_iter().map(BoundOrFiller::Bound).collect(),
+                    // A bound that can't be resolved is kept as it is, so that
+                    // whoever prints it can apply the out-of-bound rules.
+                    Err(_) => vec![BoundOrFiller::Bound(UserBounds::with_fallback(
+                        b.l,
+                        b.r,
+                        b.fallback_oob.clone(),
+                    ))],
+                },
+                BoundOrFiller::Filler(f) => vec![BoundOrFiller::Filler(f.clone())],
             })
-            .flatten()
             .collect();
 
         if !list.iter().any(|bof| matches!(bof, BoundOrFiller::Bound(_))) {
